@@ -250,6 +250,15 @@ class SymScenario(ScenarioBase):
     def eq(self, a, b):
         return _cmp(a, b, "eq")
 
+    def close(self, a, b, rel="1e-12", abs_=0):
+        """relational clauses (C09): proved as exact equality over the (idealised) reals; natively |a-b| <= rel*max(|a|,|b|) + abs_"""
+        return _cmp(a, b, "eq")
+
+    def native_assume(self, cond, why=""):
+        """restricts only the native sampling domain (e.g. to non-dust magnitudes where a relative tolerance is meaningful);
+        the symbolic obligation is NOT restricted by it"""
+        return None
+
     def unchanged(self, name, before, after):
         diffs = list(diff_state(before, after))
         for where, a, b in diffs:
@@ -433,6 +442,17 @@ class ConcreteScenario(ScenarioBase):
         if isinstance(a, bool) or isinstance(b, bool) or not (_isnum(a) and _isnum(b)):
             return a == b
         return abs(Fraction(a) - Fraction(b)) <= _slack(a, b)
+
+    def close(self, a, b, rel="1e-12", abs_=0):
+        if isinstance(a, bool) or isinstance(b, bool) or not (_isnum(a) and _isnum(b)):
+            return a == b
+        A, B = Fraction(a), Fraction(b)
+        return abs(A - B) <= Fraction(rel) * max(abs(A), abs(B)) + Fraction(abs_)
+
+    def native_assume(self, cond, why=""):
+        if not cond:
+            self.rejected = True
+            raise AssumptionFailed(why)
 
     def unchanged(self, name, before, after):
         diffs = list(diff_state(before, after))
